@@ -136,13 +136,6 @@ def causes_for(prog, q, t):
         if e["op"] == "iteruse" and prog.resolve[(e["s"], e["n"])] != prog.resolve[(prog.parent(e["s"]), e["n"])]:
             # `[.. for a in g(a)]`: the first iterable belongs to the enclosing scope
             return ["first-iterable-resolved-in-comprehension-scope"]
-    if q["b"] != t["b"] and q["b"] and t["b"]:
-        both = set(c15._binders(prog, q["b"], q["n"])) & set(c15._binders(prog, t["b"], t["n"]))
-        if both & {"import", "importfrom"}:
-            # two scopes import the same object under the same alias: by design rope
-            # compares imported names by what they import (occurrences.same_pyname)
-            return ["same-object-imported-in-two-scopes"]
-    c = None
     found = []
     for e in (t, q):
         # the scope Python resolves the token in, and the scope it is written in
@@ -155,6 +148,13 @@ def causes_for(prog, q, t):
         # also rebinds the name
         found.sort(key=lambda c: c in ("global-decl:no-binder", "nonlocal-decl-only"))
         return [found[0]]
+    if q["b"] != t["b"] and q["b"] and t["b"]:
+        both = set(c15._binders(prog, q["b"], q["n"])) & set(c15._binders(prog, t["b"], t["n"]))
+        if both & {"import", "importfrom"}:
+            # two scopes import the same object under the same alias: by design rope
+            # compares imported names by what they import (occurrences.same_pyname)
+            return ["same-object-imported-in-two-scopes"]
+    c = None
     # binders of the feature groups (constructs rope has no visitor for) that take part
     # in either binding: the deviation is attributed to each of them
     ops = {q["op"], t["op"]}
